@@ -2,7 +2,7 @@
    Models: AtomicFile.v; proofs: Proofs_Atomic.v. *)
 From Coq Require Import ZArith List Bool.
 From Common Require Import Str Res.
-From Files Require Import AtomicFile Proofs_Atomic Proofs_Durable.
+From Files Require Import AtomicFile Proofs_Atomic Proofs_Durable Proofs_Load.
 Import ListNotations.
 Open Scope Z_scope.
 
@@ -167,6 +167,72 @@ Theorem C11_no_fsync_powerloss_refuted :
   powerloss_atomic_b (kprotocol 3 w_tmp w_target [[4; 5; 6]] [KFsync 3; KClose 3] []) w_target (Some [1; 2]) [4; 5; 6] = true.
 Proof. exact no_fsync_powerloss_refuted_lemma. Qed.
 Print Assumptions C11_no_fsync_powerloss_refuted.
+
+(* T6: the load side in stages (gunzip oracle, validate oracle) and the composition
+   save ; crash ; load at the level of the DECODED session.  `gunzip`, `validate` and the
+   encoder `enc` are universally quantified oracles; the only hypothesis is that what dump
+   writes for a state decodes to that state. *)
+Theorem C11_load_file_total : forall A gunzip (validate : bytes -> js_outcome A) content,
+  exists v, load_file gunzip validate content = Ok v.
+Proof. exact load_file_total_sec. Qed.
+Print Assumptions C11_load_file_total.
+
+Theorem C11_load_file_some_iff : forall A gunzip (validate : bytes -> js_outcome A) content a,
+  load_file gunzip validate content = Ok (Some a) <->
+  exists b p, content = Some b /\ gunzip b = GzOk p /\ validate p = JsOk a.
+Proof. exact load_file_some_sec. Qed.
+Print Assumptions C11_load_file_some_iff.
+
+(* an unreadable state file (whichever stage fails: not gzip, truncated, corrupt deflate
+   data, bad UTF-8, not JSON, wrong schema) behaves exactly like no state file *)
+Theorem C11_unreadable_like_missing : forall A gunzip (validate : bytes -> js_outcome A) default b,
+  (forall p a, gunzip b = GzOk p -> validate p <> JsOk a) ->
+  load_file gunzip validate (Some b) = load_file gunzip validate None /\
+  session_of default (load_file gunzip validate (Some b)) = default.
+Proof. exact unreadable_like_missing_lemma. Qed.
+Print Assumptions C11_unreadable_like_missing.
+
+Theorem C11_dump_crash_load : forall A gunzip (validate : bytes -> js_outcome A) (enc : A -> bytes),
+  (forall a, exists p, gunzip (enc a) = GzOk p /\ validate p = JsOk a) ->
+  forall s0 f tmp target chunks mid tail new_state,
+  wf s0 -> names s0 tmp = None -> fds s0 f = None -> tmp <> target ->
+  forallb quiet_b mid = true -> forallb quiet_b tail = true ->
+  concat chunks = enc new_state ->
+  forall k : nat,
+    let after := read (crash (kprotocol f tmp target chunks mid tail) k s0) target in
+    load_file gunzip validate after = load_file gunzip validate (read s0 target) \/
+    load_file gunzip validate after = Ok (Some new_state).
+Proof. exact dump_crash_load_sec. Qed.
+Print Assumptions C11_dump_crash_load.
+
+Theorem C11_dump_powerloss_load : forall A gunzip (validate : bytes -> js_outcome A) (enc : A -> bytes),
+  (forall a, exists p, gunzip (enc a) = GzOk p /\ validate p = JsOk a) ->
+  forall s0 f tmp target chunks mid tail new_state,
+  wf (ks s0) -> names (ks s0) tmp = None -> tmp <> target ->
+  (forall i, i < next (ks s0) -> durable s0 i = data (ks s0) i) ->
+  forallb quiet_b mid = true -> forallb quiet_b tail = true ->
+  concat chunks = enc new_state ->
+  forall k : nat,
+    let after := pl_read (drun (firstn k (kprotocol f tmp target chunks (KFsync f :: mid) tail)) s0) target in
+    load_file gunzip validate after = load_file gunzip validate (read (ks s0) target) \/
+    load_file gunzip validate after = Ok (Some new_state).
+Proof. exact dump_powerloss_load_sec. Qed.
+Print Assumptions C11_dump_powerloss_load.
+
+(* the session restored by the next start is the old one or the new one, never a third *)
+Theorem C11_restart_session : forall A gunzip (validate : bytes -> js_outcome A) (enc : A -> bytes),
+  (forall a, exists p, gunzip (enc a) = GzOk p /\ validate p = JsOk a) ->
+  forall s0 f tmp target chunks mid tail old_state new_state default,
+  wf s0 -> names s0 tmp = None -> fds s0 f = None -> tmp <> target ->
+  forallb quiet_b mid = true -> forallb quiet_b tail = true ->
+  concat chunks = enc new_state ->
+  read s0 target = Some (enc old_state) ->
+  forall k : nat,
+    let sess := session_of default (load_file gunzip validate
+                  (read (crash (kprotocol f tmp target chunks mid tail) k s0) target)) in
+    sess = old_state \/ sess = new_state.
+Proof. exact restart_session_sec. Qed.
+Print Assumptions C11_restart_session.
 
 (* The code before the fix commits (kept machine-checked): *)
 Theorem C11_dump_old_refuted :
